@@ -1,9 +1,9 @@
-(* C21: model of  opensmt::TermNames  (src/common/TermNames.h:20-149), operation by operation, and
+(* C21: model of  opensmt::TermNames  (src/common/TermNames.h:20-145), operation by operation, and
    the abstract specification (a stack of scopes).  Definitions only; proofs in TermNamesProofs.v.
 
-     ScopedVector<pair<TermName,PTRef>> scopedNamesAndTerms;     (TermNames.h:147)
-     unordered_map<TermName,PTRef>       nameToTerm;              (TermNames.h:148)
-     unordered_map<PTRef,vector<TermName>> termToNames;           (TermNames.h:149)
+     ScopedVector<pair<TermName,PTRef>> scopedNamesAndTerms;     (TermNames.h:142)
+     unordered_map<TermName,PTRef>       nameToTerm;              (TermNames.h:143)
+     unordered_map<PTRef,vector<TermName>> termToNames;           (TermNames.h:144)
 
    Names (std::string) and terms (PTRef) only matter up to equality: both are [N] here.  The
    unordered maps are association lists read through [al_find] (iteration order of the hash maps
@@ -52,12 +52,12 @@ Definition tn_init : tn := mk_tn sv_empty (mk_maps [] []).
 (* observers *)
 Definition contains_name (s : tn) (n : name) : bool := al_has n (m_n2t (tn_maps s)).      (* TermNames.h:26 *)
 Definition contains_term (s : tn) (t : term) : bool := al_has t (m_t2n (tn_maps s)).      (* TermNames.h:27 *)
-Definition term_by_name (s : tn) (n : name) : option term := al_find n (m_n2t (tn_maps s)). (* tryGetTermByName, :69 *)
-Definition names_for_term (s : tn) (t : term) : option (list name) := al_find t (m_t2n (tn_maps s)). (* tryGetNamesForTerm, :76 *)
-Definition iteration (s : tn) : list (name * term) := sv_elements (tn_scoped s).           (* begin()/end(), :88 *)
+Definition term_by_name (s : tn) (n : name) : option term := al_find n (m_n2t (tn_maps s)). (* tryGetTermByName, :67 *)
+Definition names_for_term (s : tn) (t : term) : option (list name) := al_find t (m_t2n (tn_maps s)). (* tryGetNamesForTerm, :74 *)
+Definition iteration (s : tn) : list (name * term) := sv_elements (tn_scoped s).           (* begin()/end(), :86 *)
 Definition tn_size (s : tn) : nat := sv_size (tn_scoped s).
 
-(* tryGetNameForTerm / nameForTerm (TermNames.h:63-66, 82-86): pickName = vec.front();
+(* tryGetNameForTerm / nameForTerm (TermNames.h:56-59, 62-65, 80-84): pickName = vec.front();
    front() of an empty vector is undefined behaviour. *)
 Inductive picked := PickNone | PickUB | PickName (n : name).
 Definition name_for_term (s : tn) (t : term) : picked :=
@@ -67,7 +67,7 @@ Definition name_for_term (s : tn) (t : term) : picked :=
   | Some (n :: _) => PickName n
   end.
 
-(* tryInsert (TermNames.h:37-44) *)
+(* tryInsert (TermNames.h:36-43) *)
 Definition try_insert (n : name) (t : term) (s : tn) : tn * bool :=
   match al_find n (m_n2t (tn_maps s)) with
   | Some _ => (s, false)
@@ -78,7 +78,7 @@ Definition try_insert (n : name) (t : term) (s : tn) : tn * bool :=
        true)
   end.
 
-(* eraseTermName (TermNames.h:130-139).  None = undefined behaviour (termToNames.at(term) on a
+(* eraseTermName (TermNames.h:129-138).  None = undefined behaviour (termToNames.at(term) on a
    missing key throws std::out_of_range out of a noexcept-free path; erase(end()) is undefined). *)
 Definition erase_term_name (fx : bool) (n : name) (m : maps) : option (maps * bool) :=
   match al_find n (m_n2t m) with
@@ -100,7 +100,7 @@ Definition erase_term_name (fx : bool) (n : name) (m : maps) : option (maps * bo
 Definition erase_cb (fx : bool) (p : name * term) (m : maps) : option maps :=
   option_map fst (erase_term_name fx (fst p) m).
 
-(* pushScope / popScope (TermNames.h:114-128); [g] = config.declarations_are_global() *)
+(* pushScope / popScope (TermNames.h:115-127); [g] = config.declarations_are_global() *)
 Definition push_scope (g : bool) (s : tn) : tn :=
   if g then s else mk_tn (sv_push_scope (tn_scoped s)) (tn_maps s).
 
